@@ -35,6 +35,7 @@ type rulesVal struct {
 	N   int64   `json:"n"`
 	Far int     `json:"far"`
 	Cps []int32 `json:"cps"`
+	Eps int     `json:"eps"` // floats: -1 / 1 = the representable neighbour just below / above N halves
 }
 
 // named struct types for the "rm" carrier (rules supplied by an RM override, not by a tag)
@@ -165,6 +166,17 @@ func rulesConc(kind string, v rulesVal) (reflect.Value, error) {
 		rv.SetFloat(x)
 		if v.Far == 0 && rv.Float() != x {
 			return rv, fmt.Errorf("%v is not exact in %s", x, kind)
+		}
+		if v.Far == 0 && v.Eps != 0 {
+			dir := math.Inf(v.Eps)
+			if ki.t.Bits() == 32 {
+				rv.SetFloat(float64(math.Nextafter32(float32(x), float32(dir))))
+			} else {
+				rv.SetFloat(math.Nextafter(x, dir))
+			}
+			if rv.Float() == x {
+				return rv, fmt.Errorf("no neighbour of %v in %s", x, kind)
+			}
 		}
 	case "slice":
 		n := int(v.N)
@@ -504,6 +516,7 @@ type rulesOneIn struct {
 	N       int64   `json:"n"`
 	Far     int     `json:"far"`
 	Cps     []int32 `json:"cps"`
+	Eps     int     `json:"eps"`
 	Rules   string  `json:"rules"`
 	Carrier string  `json:"carrier"`
 }
@@ -518,7 +531,7 @@ func rulesOne(args []string) error {
 		if !in.next(&r) {
 			break
 		}
-		v, err := rulesConc(r.Kind, rulesVal{N: r.N, Far: r.Far, Cps: r.Cps})
+		v, err := rulesConc(r.Kind, rulesVal{N: r.N, Far: r.Far, Cps: r.Cps, Eps: r.Eps})
 		if err != nil {
 			return err
 		}
@@ -548,6 +561,7 @@ type rulesTuple struct {
 	N        int64   `json:"n"`
 	Far      int     `json:"far"`
 	Cps      []int32 `json:"cps"`
+	Eps      int     `json:"eps"`
 	Carrier  string  `json:"carrier"`
 	Rules    string  `json:"rules"`
 	Violated bool    `json:"violated"`
@@ -608,7 +622,11 @@ func rulesRandomValue(rng *rand.Rand, kind string, target int64) rulesVal {
 		}
 		v.N = target
 	case "float":
-		if target == 0 {
+		// one time in three: the representable neighbour of the target instead of the target itself (also of 0)
+		if rng.Intn(3) == 0 && (ki.t.Bits() == 64 || (target < 2000000 && target > -2000000)) {
+			v.Eps = 1 - 2*rng.Intn(2)
+		}
+		if target == 0 && v.Eps == 0 {
 			target = int64(1 - 2*rng.Intn(2))
 		}
 		v.N = target
@@ -708,11 +726,11 @@ func rulesRecord(args []string) error {
 		rules := rulesText(rule, lo, hi, msg)
 		ob := rulesAbstractC(carrier, kind, v, rules, rng)
 		if ob.Verdict != "0" && ob.Verdict != "1" {
-			out.put(map[string]interface{}{"id": id, "bad": ob, "kind": kind, "n": av.N, "far": av.Far, "cps": av.Cps, "carrier": carrier, "rules": rules,
+			out.put(map[string]interface{}{"id": id, "bad": ob, "kind": kind, "n": av.N, "far": av.Far, "cps": av.Cps, "eps": av.Eps, "carrier": carrier, "rules": rules,
 				"rule": rule, "lo": lo, "hi": hi})
 			continue
 		}
-		out.put(rulesTuple{ID: id, Rule: rule, Lo: lo, Hi: hi, Kind: kind, N: av.N, Far: av.Far, Cps: av.Cps, Carrier: carrier, Rules: rules,
+		out.put(rulesTuple{ID: id, Rule: rule, Lo: lo, Hi: hi, Kind: kind, N: av.N, Far: av.Far, Cps: av.Cps, Eps: av.Eps, Carrier: carrier, Rules: rules,
 			Violated: ob.Verdict == "1"})
 	}
 	return nil
@@ -742,6 +760,7 @@ type rulesAgreeRec struct {
 	N     int64            `json:"n"`
 	Far   int              `json:"far"`
 	Cps   []int32          `json:"cps"`
+	Eps   int              `json:"eps"`
 	Str   string           `json:"str"`
 	Rules []rulesAgreeRule `json:"rules"`
 	Obs   []rulesAgreeObs  `json:"obs"`
@@ -870,7 +889,7 @@ func rulesAgree(args []string) error {
 		if err != nil {
 			return err
 		}
-		rec := rulesAgreeRec{ID: id, Kind: kind, N: av.N, Far: av.Far, Cps: av.Cps, Str: str, Rules: rs}
+		rec := rulesAgreeRec{ID: id, Kind: kind, N: av.N, Far: av.Far, Cps: av.Cps, Eps: av.Eps, Str: str, Rules: rs}
 		rules := strings.Join(texts, ",")
 		for _, c := range cl {
 			if !rulesApplicable(c, kind, v) {
